@@ -778,6 +778,25 @@ def r20a(R):
             'the script table is filled outside the manifest loader')
 
 
+def is_html_escape(f, func):
+    """`func` (the callee expression of a call in f) is html.escape: written
+    out, imported by name, or reached through a local alias bound only to it."""
+    if norm(func) == 'html.escape':
+        return True
+    if isinstance(func, ast.Name):
+        vals = [n.value for n in walk_own(f.node)
+                if isinstance(n, ast.Assign) and any(
+                    isinstance(t, ast.Name) and t.id == func.id for t in n.targets)]
+        if vals:
+            return all(is_html_escape(f, v) for v in vals)
+        for n in ast.walk(f.module.tree):
+            if isinstance(n, ast.ImportFrom) and n.module == 'html' and any(
+                    a.name == 'escape' and (a.asname or a.name) == func.id
+                    for a in n.names):
+                return True
+    return False
+
+
 @rule('R20.b', ('C20',), 'manifest strings are HTML-escaped at construction; '
       'templates do not disable escaping', floor=6,
       decides='file name, path, title and colour strings are HTML-escaped '
@@ -792,8 +811,8 @@ def r20b(R):
             stored[n.targets[0].attr] = n.value
     for field in ('file_name', 'path', 'title', 'background', 'color'):
         v = stored.get(field)
-        ok = isinstance(v, ast.Call) and norm(v.func) == 'html.escape' \
-            and len(v.args) == 1 and norm(v.args[0]) == field
+        ok = isinstance(v, ast.Call) and is_html_escape(init, v.func) \
+            and len(v.args) >= 1 and norm(v.args[0]) == field
         R.check(init, 'self.%s = %s' % (field, norm(v) if v is not None else None),
                 ok, 'the manifest string `%s` reaches the page templates '
                 'without html.escape' % field)
